@@ -2,12 +2,27 @@
 """Generate MANIFEST.json from the table below (kept valid at all times)."""
 import json, os, sys
 
+TECH = 'explicit TLA+ specification checked with TLC; conformance: TLC state-graph paths replayed into the real dd code and TLC trace validation of recorded executions / input sweeps'
+TRUST = 'Trusted: TLC and the CommunityModules JSON reader; harness/adapter.py, which copies _succ/_ref/vars out of the manager (all denotations, in-degrees, reachability are recomputed by TLC from those raw tables). '
 CHECKS = {
- 'C06': dict(
-   technique='TLA+ model checking (TLC) of BDDSpec + replay of the TLC state graph into dd.bdd + TLC trace validation of recorded executions',
-   text='Bounded-exhaustive TLC model checking of the transcribed find_or_add/ite/collect_garbage/swap algorithms (RefExact, CollectC, CacheSound, HeldSame, StepContract) over 2-3 variables; every path of that state graph and seeded random long histories are executed on the real dd.bdd.BDD and every recorded step (full node table, counts, harness ledger) is judged by TLC against the same contracts.',
-   note='Trusted: TLC, the adapter that reads _succ/_ref/_ite_table, the harness ledger of increfs. Bounded: 2-3 variables and depth <= 7 in the model, 2-5 variables and <= 300 steps in recorded histories.',
-   design='7 (C06), 4, 5'),
+ 'C01': dict(technique=TECH,
+   text='TLC judges, against the semantic layer BoolFun (27-symbol vocabulary), every apply/ite/negation/Function-operator result of exhaustive sweeps over all 256 functions of 3 variables in every order (quick: one order exhaustive per connective, all aliases sampled; thorough: all aliases x all pairs x 6 orders, all 16.7M ITE triples for 2 orders), plus model-graph replays and random histories (collections, swaps, sifting, re-used node numbers, warm cache with witness calls) up to 8 variables.',
+   note=TRUST + 'Exhaustive for 3 variables, sampled to 8; model 2 variables depth 4-5.', design='7 (C01)'),
+ 'C02': dict(technique=TECH,
+   text='Canonical/DenInjective are TLC invariants of the algorithm-level model (find_or_add, swap, undeclare, add_var) and are evaluated by TLC on every recorded state of real executions; construction-route sweeps rebuild every function of 3 (all orders) and 4 variables by 7 routes and TLC checks each comes back as the one reference of that function.',
+   note=TRUST + 'n<=4 exhaustive routes (thorough all 24 orders), histories bounded; copy/load routes are covered under C11/C12.', design='7 (C02)'),
+ 'C03': dict(technique=TECH,
+   text='TLC checks every quantify/exist/forall/apply-quantifier result against BoolFun!QuantF and independence of the quantified variables, for all functions of 3 variables x all subsets x both quantifiers x all orders (4 variables sampled quick / exhaustive thorough), through dd.bdd and dd.autoref routes; QuantifyRec of the model is checked to refine the contract.',
+   note=TRUST + 'Exhaustive to 3/4 variables.', design='7 (C03)'),
+ 'C04': dict(technique=TECH,
+   text='TLC checks every let/cofactor/compose/rename result against BoolFun!ComposeF (simultaneous substitution) for all functions of 3 variables x all 3^n partial assignments x all (n+1)^n renamings x sampled replacement tuples, all orders (4 variables sampled/thorough); Cofactor/Compose/VectorCompose/CopyRename of the model refine the contracts under TLC.',
+   note=TRUST + 'Compose is sampled (seeded); cofactor/rename exhaustive to 3/4 variables.', design='7 (C04)'),
+ 'C06': dict(technique=TECH,
+   text='Bounded-exhaustive TLC model checking of the transcribed find_or_add/ite/collect_garbage/swap algorithms (RefExact, CollectC, CacheSound, HeldSame, StepContract) over 2-3 variables; paths of that state graph and seeded random long histories are executed on the real dd.bdd.BDD and every recorded step (full node table, counts, the harness ledger of increfs) is judged by TLC: exact counts, exactly the reachable nodes after a collection, held references keep their meaning, witness calls after cache-clearing actions.',
+   note=TRUST + 'The ledger of external references is the harness\'s own. Bounded: 2-3 variables depth<=7 in the model, 2-5 variables <=300 steps recorded.', design='7 (C06)'),
+ 'C10': dict(technique=TECH,
+   text='TLC checks support/is_essential/count/pick/pick_iter of the real code for all functions of 3 variables (all orders, every care set incl. unused declared variables, every n) against BoolFun (Support, CountF, cube cover/disjointness); MC_Sat checks the transcribed _sat_len/count/support recursions against BoolFun on all 256 functions x 6 orders.',
+   note=TRUST + 'Exhaustive to 3 variables, 4 sampled (thorough: all orders).', design='7 (C10)'),
 }
 NOT_YET = {
  # property -> reason (kept current while the machinery is being built)
